@@ -115,7 +115,7 @@ def make_worker(tier):
 def run(args):
     chk = common.Check('C04', 'exploration', args.tier)
     fams = base.families_for(args.tier, args.families, quick=('S0', 'S1', 'S5'), thorough=('S0', 'S1', 'S2', 'S4', 'S5'))
-    stats, distinct, samples = base.run_sweep(chk, args, make_worker(args.tier), fams=fams)
+    stats, distinct, samples = base.run_sweep(chk, args, make_worker(args.tier), fams=fams, shape_tier='quick')
     cov = dict(evaluations=stats['evaluations'], distinct_nontrivial=len(distinct),
                rule='seed encodings (reference DER + an indefinite-length variant, reference UPER and OER, asn1c CANONICAL-XER) of the typical value of every '
                     'type of families %s; mutation classes: t=every truncation, s=every single-byte substitution x all 256 values (XML: structural alphabet), '
